@@ -1,0 +1,36 @@
+//go:build verif
+
+// Contracts for package concurrent (atoms and futures), read by /verif's VC generator (govc).
+// Comment-only.
+package concurrent
+
+// ---- atoms (C09) ---------------------------------------------------------------------
+// Atom.Val is protected by Atom.Mutex: every read holds it (read or write mode), every
+// write holds it in write mode (lock/held-for-access obligations are generated for every
+// access in the package). The sequential effect of each operation inside its critical
+// section:
+
+//@ func (*Atom).Set(a, val) (r)
+//@   requires a != nil && heldW(fieldaddr(a, Mutex))
+//@   panics never
+//@   assigns comp:cell:concurrent_Atom
+//@   ensures a.Val == val
+
+//@ func (*Atom).Deref(a, ctx) (r, err)
+//@   requires a != nil && unlocked(fieldaddr(a, Mutex))
+//@   panics never
+//@   ensures err == nil && r == old(a.Val) && a.Val == old(a.Val) && unlocked(fieldaddr(a, Mutex))
+
+// reset!: installs and returns its argument
+//@ func reset_BANG(atomRef, value) (r, err)
+//@   requires implies(is(atomRef, *Atom), atomRef.(*Atom) != nil && unlocked(fieldaddr(atomRef.(*Atom), Mutex)))
+//@   ensures implies(is(atomRef, *Atom), err == nil && r == value && atomRef.(*Atom).Val == value && unlocked(fieldaddr(atomRef.(*Atom), Mutex)))
+//@   ensures implies(!is(atomRef, *Atom), err != nil)
+
+// swap!: applies f to the current value (read once) and the extra arguments, installs and
+// returns the result; an update function that fails leaves the atom unchanged
+//@ func swap_BANG(ctx, a) (r, err)
+//@   requires len(a) >= 2 && implies(is(a[0], *Atom), a[0].(*Atom) != nil && unlocked(fieldaddr(a[0].(*Atom), Mutex)))
+//@   ensures implies(is(a[0], *Atom) && err == nil, a[0].(*Atom).Val == r)
+//@   ensures implies(is(a[0], *Atom), unlocked(fieldaddr(a[0].(*Atom), Mutex)))
+//@   ensures implies(!is(a[0], *Atom), err != nil)
